@@ -122,7 +122,8 @@ def rules(ctx, db):
         flag = const_arg(t, 1)
         name = f.name
         if flag == "false":
-            ok = name == "compio_executor::task::Task::drop"
+            # by role: the executor-side teardown of a task is the function that marks it dropped
+            ok = bool(calls(f, r"State::set_dropped$"))
             ctx.ob("R3", "future-dropped-by:" + name, ok,
                    "drop_future(_, false) — dropping a live future — only in the executor-side Task::drop (home thread)", f)
         elif flag == "true":
@@ -151,11 +152,12 @@ def rules(ctx, db):
         dec = [b for b, _ in calls(f, r"State::dec$")]
         ctx.ob("R3", "dealloc-after-last-dec", bool(dec) and f.cfg.dominates(dec[0], bb) and bool(calls(f, r"Snapshot::count$")),
                "deallocation is decided from the count returned by the decrement", f)
-    td = [(f, bb) for f, bb, t in db.callers_of(r"^compio_executor::task::Task::drop$") if not f.blocks[bb]["cl"]]
+    exec_drop = [f for f in db.fns.values() if f.self_adt == "compio_executor::task::Task" and not f.trait and calls(f, r"State::set_dropped$")]
+    td = [(g, bb) for f in exec_drop for g, bb in db.callers().get(f.id, []) if not g.blocks[bb]["cl"]]
     ctx.floor("R3", "Task::drop (executor-side) call sites", len(td), 2)
     for f, bb in td:
         root = db.root_fn(f)
-        ok = root.name in ("compio_executor::Executor::tick", "compio_executor::queue::TaskQueue::clear")
+        ok = root.self_adt in ("compio_executor::Executor", "compio_executor::queue::TaskQueue")
         ctx.ob("R3", "Task::drop-caller:" + root.name, ok, "Task::drop is called only by Executor::tick and TaskQueue::clear", f)
 
     # ---------------- R4 tick
@@ -185,8 +187,7 @@ def rules(ctx, db):
                    "a pending task is put back", f)
 
     # ---------------- R5 teardown
-    tdp = m(db, T, "drop")
-    tdp = [f for f in tdp if f.name == "compio_executor::task::Task::drop"]
+    tdp = exec_drop
     if not tdp:
         ctx.missing("R5", "Task::drop")
     for f in tdp:
